@@ -138,3 +138,56 @@ def check_drive_src(ctx, M, drive_body, rule):
         ok, bad = bi.must_reach([ed[1]], [s.block for s in fl], bi.return_blocks)
         ctx.check(ok, rule, drive_body.def_, "flush is reached after %s" % what, site=bi.describe(ed[0]),
                   path=common.fmt_blocks(bi, bad))
+
+
+# ------------------------------------------------------------------------------------------------
+# shared vocabulary for C13 / C14 / C15
+# ------------------------------------------------------------------------------------------------
+
+def cfield(name):
+    """`self.<name>` inside an `async fn(self: Pin<&mut Self>, ..)` coroutine: upvar 0 of the state"""
+    return ("field", ("field", ("param", 1), 0), name)
+
+
+def cupvar(n):
+    return ("field", ("param", 1), n)
+
+
+def consumer(M, name):
+    ent = M.consumers.get(name)
+    return ent
+
+
+def group_next_awaits(bi, field="group"):
+    """awaits of `self.group.next()`"""
+    out = []
+    for a in awaits(bi):
+        if a.kind is not None and a.kind[1] == "next" and a.call_args and a.call_args[0] == cfield(field):
+            out.append(a)
+    return out
+
+
+def await_value_tests(bi, a, pred_owner="Option"):
+    """(edges where the awaited value is Some, edges where it is None)"""
+    site = a.site
+    some = bi.outcome_edges(site, "Ready", "Some")
+    none = bi.outcome_edges(site, "Ready", "None")
+    return some, none
+
+
+def drain_loops_exit_only_on_none(ctx, bi, rule, where, what, field="group"):
+    """every return of the body is reached only through the None edge of a `group.next().await`"""
+    aw = group_next_awaits(bi, field)
+    nones = []
+    for a in aw:
+        s, n = await_value_tests(bi, a)
+        nones += n
+    rets = bi.return_blocks
+    ok = bool(aw) and bool(nones) and all(bi.guarded_by(r, nones) for r in rets)
+    ctx.check(ok, rule, where, what, site=bi.body.span, sample={"awaits": [a.where for a in aw]})
+    return aw
+
+
+def fn_calls(bi):
+    """closure invocations `(self.f)(x)`: Fn/FnMut/FnOnce::call* sites"""
+    return [s for s in bi.sites if s.callee.trait in ("Fn", "FnMut", "FnOnce") and s.callee.name in ("call", "call_mut", "call_once")]
